@@ -75,6 +75,7 @@ func (fs *fsModel) fault(op string) bool {
 		return false
 	}
 	b := fs.in.drawInput("fsfault."+op, "bool", 0)
+	fs.in.res.NoNative = true
 	return fs.in.Branch(b)
 }
 
@@ -534,6 +535,7 @@ func registerOS(e *Engine) {
 	// (counted from the call). Returns true if the crash happened.
 	H["vhCrashRun"] = func(in *Interp, fn *ssa.Function, a []Value) (res Value) {
 		k := in.Concretize(a[0].(*smt.Term), 64, "crash step")
+		in.res.NoNative = true
 		saved := in.top
 		in.fs.crashAt = in.fs.step + k
 		defer func() {
